@@ -45,11 +45,14 @@ func (n ScaleNote) MarshalYAML() (any, error) {
 }
 
 func (n ScaleNote) GetDegree(x *ScaleNote, isSharp bool) (note.Degree, error) {
-	s := x.Semitone() - n.Semitone()
+	// upward distance between the letters, then the accidentals:
+	// Db to C# is an augmented seventh (12), C to Cb a diminished unison (-1)
+	s := x.Name.Semitone() - n.Name.Semitone()
 	oct := note.Octave(1).Semitone()
 	if s < 0 {
 		s += oct
 	}
+	s += x.Accidental.Semitone() - n.Accidental.Semitone()
 
 	value, ok := n.Name.GetDegree(x.Name)
 	var defaultDegree note.Degree
